@@ -145,7 +145,7 @@ def main(argv):
                     tm = json.load(open(os.path.join(VERIF, 'lib', 'timings.json')))
                 except OSError:
                     tm = {}
-                sel = [u for u in sel if tm.get(u['name'], 0) <= 60 or u['name'] in ('htp_connp_req_data', 'htp_connp_res_data')]
+                sel = [u for u in sel if tm.get(u['name'], 0) <= 25 or u['name'] in ('htp_connp_req_data', 'htp_connp_res_data')]
     prop = a.prop or (sel[0]['props'][0] if sel else '?')
     t0 = time.time()
     # known findings that are carved out of a unit by a macro are re-confirmed on every run: the same unit is run once more
